@@ -53,9 +53,15 @@ done
 python3 - "$PROP" "$TARGET" "$EXECS" "${COV:-0}" "$CORP" "${EXCL:-0}" "$JOBS" "$SECS" "$found" "$other" <<'PY'
 import json,sys
 prop,target,execs,cov,corp,excl,jobs,secs,found,other=sys.argv[1:]
-p=f"/verif/evidence/{prop}.json"
+import os
+p=os.path.join(os.environ.get("VERIF_DIR","/verif"),"evidence",f"{prop}.json")
 try:
     d=json.load(open(p))
+    # only the thorough run of the same property owns these numbers: a campaign started by hand after a
+    # quick run must never inflate the quick evidence (it did once: C02/C06, 1.4M executions added)
+    if d.get('tier')!='thorough' or d.get('property_id')!=prop:
+        print(f"[fuzz {target}] evidence/{prop}.json is not from a thorough run of {prop}; campaign statistics not merged",file=sys.stderr)
+        sys.exit(0)
     d['coverage'].setdefault('fuzz_campaigns',[]).append({"target":target,"engine":"libFuzzer (cargo-fuzz, nightly, sanitizer none, overflow checks on)","executions":int(execs),"max_edge_coverage":int(cov),"corpus_files":int(corp),"known_finding_inputs_excluded_at_least":int(excl),"jobs":int(jobs),"seconds":int(secs),"artifacts":int(found),"artifacts_for_other_property":int(other)})
     d['coverage']['evaluations']+=int(execs)
     json.dump(d,open(p,'w'),indent=1)
